@@ -41,9 +41,27 @@ def reference(doc, tokens):
     return v
 
 
+def history_check(rec):
+    """What a pointer text means does not depend on which pointers were built before, nor with which decoding
+    switches (a cache keyed by the text alone would show here)."""
+    doc = {"y%42": "raw", "yB": "decoded", "a\\u0062": "raw-u", "ab": "decoded-u", "a b": 1, "a%20b": 2}
+    cases = [("/y%42", {"uri_decode": True}, "decoded"), ("/y%42", {}, "raw"), ("/y%42", {"uri_decode": True}, "decoded"), ("/a%20b", {}, 2), ("/a%20b", {"uri_decode": True}, 1), ("/a%20b", {}, 2),
+             ("/a\\u0062", {}, "decoded-u"), ("/a\\u0062", {"unicode_escape": False}, "raw-u"), ("/a\\u0062", {}, "decoded-u")]
+    for text, kw, want in cases:
+        try:
+            got = JSONPointer(text, **kw).resolve(doc)
+        except Exception as e:  # noqa: BLE001
+            got = f"raises {type(e).__name__}: {e}"
+        if got == want:
+            rec.ok(("history", text, tuple(sorted(kw.items()))))
+        else:
+            rec.fail(f"history:{text}:{sorted(kw.items())}", f"JSONPointer({text!r}, **{kw!r}).resolve({doc!r}) -> {got!r} after other pointers were built with other switches; expected {want!r}", "sys.exit(2)")
+
+
 def run(tier, seed):
     docs = PU.docs(tier, seed)
     rec = U.Recorder(f"every location of {len(docs)} documents (names from {len(PU.NAMES)} awkward strings) + {len(BAD_TOKENS)} one-token mutations of each location; escape decoding on/off")
+    history_check(rec)
     for d in docs:
         for parts, node in PU.locations(d):
             text = PU.spell(parts)
